@@ -296,6 +296,13 @@ def run(case):
             tags[f"variant:{name.split(':')[0]}"] += 1
             a_, b_ = _obj(cls, on, rkey), _obj(cls, oe, rkey)
             ctx = f"{cls}(node mode, {name}, {kw0})"
+            if a_ != b_ and a_[0] == "solved" and b_[0] == "solved" and cls != "MinErrorFlow":
+                # trusted-base guard (drivers.objective_without_presolve): two different 'optima' -> ask both sides again without presolve
+                on2 = drivers.objective_without_presolve(dict(ninst, cls=cls, kw=nkw_full))
+                oe2 = drivers.objective_without_presolve(dict(einst, cls=cls, kw=ekw))
+                if _obj(cls, on2, rkey) == _obj(cls, oe2, rkey):
+                    tags["highs_presolve_wrong_optimum"] += 1
+                    continue
             if a_ != b_:
                 detail = on["exc"] if on["exc"] else ""
                 viol.append({"kind": "node_mode_differs_from_expansion", "variant": name.split(":")[0], "msg": f"{ctx}: node mode {a_} {detail}, explicit expansion {b_}",
